@@ -20,7 +20,7 @@ RULE = ("cases = (seeded program, position, tool in {wrap-in-dbg, add-type-annot
 ASSUME = ["a refusal (exit 10) is not a violation", "dbg lines are recognised as stderr lines that are not Exception/Error lines"]
 BATCH = 1
 FLOOR = {"quick": 20, "thorough": 40}
-BUDGET = {"quick": 45, "thorough": 840}
+BUDGET = {"quick": 35, "thorough": 840}
 
 
 def gen_cases(tier, seed):
